@@ -8,11 +8,13 @@ import "encoding/binary"
 
 const (
 	opSTOP         = 0x00
+	opEQ           = 0x14
 	opISZERO       = 0x15
 	opAND          = 0x16
 	opSHR          = 0x1c
 	opADDRESS      = 0x30
 	opBALANCE      = 0x31
+	opORIGIN       = 0x32
 	opCALLVALUE    = 0x34
 	opCALLDATALOAD = 0x35
 	opCALLDATASIZE = 0x36
